@@ -71,7 +71,7 @@ func (m *recoveryMessage) AddPayload(p dbft.ConsensusPayload[crypto.Uint256]) {
 }
 
 func fromPayload(t dbft.MessageType, recovery dbft.ConsensusPayload[crypto.Uint256], p Serializable) *Payload {
-	return &Payload{
+	res := &Payload{
 		message: message{
 			cmType:     t,
 			viewNumber: recovery.ViewNumber(),
@@ -79,6 +79,14 @@ func fromPayload(t dbft.MessageType, recovery dbft.ConsensusPayload[crypto.Uint2
 		},
 		height: recovery.Height(),
 	}
+	// Payloads packed into a recovery message belong to the same height of the
+	// same chain, so the rest of their envelope is the one of the recovery
+	// message (the index of the original sender is set by the caller).
+	if r, ok := recovery.(*Payload); ok {
+		res.version = r.version
+		res.prevHash = r.prevHash
+	}
+	return res
 }
 
 // GetPrepareRequest implements RecoveryMessage interface.
